@@ -286,6 +286,17 @@ class Interp:
                     hi = None
                 else:
                     lo = None
+            elif t[0] == "mul" and all(f[0] == "size" for f in t[1]):
+                # a product of sizes is at least the product of their lower bounds
+                lb = 1
+                for f in t[1]:
+                    lb *= self.size_lb(f[1])
+                if k > 0:
+                    lo = None if lo is None else lo + k * lb
+                    hi = None
+                else:
+                    hi = None if hi is None else hi + k * lb
+                    lo = None
             else:
                 return None, None
         # pairs of size atoms with a declared strict order
@@ -846,6 +857,22 @@ class Interp:
             return rng(sym.Opq("len", ())), iv, lambda: Sc(generic_elem(it))
         if isinstance(it, DictV):
             return None, None, [StrV(k) if isinstance(k, str) else Sc(sym.Num(k)) for k in it.d]
+        if isinstance(it, ObjV) and it.cls:
+            # an object without __iter__ is iterated through __getitem__(0), (1), … until IndexError: follow __getitem__ at a
+            # generic position; the positions are those of the array attribute the result is a row of
+            c = self.p.classes.get(it.cls)
+            if c is not None and c.lookup("__iter__", self.p) is None:
+                g = c.lookup("__getitem__", self.p)
+                if g is not None:
+                    iv = fresh()
+                    r = self.call_function(g, [it, Sc(sym.IV(iv))], {}, node)
+                    for a_ in it.attrs.values():
+                        if isinstance(a_, Arr) and a_.ndim >= 2 and isinstance(r, Arr) and r.ndim == a_.ndim - 1:
+                            row = arrays.index(a_, [("expr", sym.IV(iv))])
+                            if isinstance(row, Arr) and _same_abstract(row, r):
+                                sp = a_.axes[0][0]
+                                self.ivspace[iv] = sp
+                                return sp, iv, (lambda r=r: r)
         iv = fresh("b")
         u = self.unknown("iteration-over-" + type(it).__name__, node, (generic_elem(it),))
         return rng(sym.Opq("len", ())), iv, lambda: u
@@ -881,7 +908,10 @@ class Interp:
                 fr.loop_stack.append(ls)
                 n = len(self.path)
                 r = self.exec_block(st.body, env)
-                del self.path[n:]
+                if r is None or ls["continues"] or ls["breaks"]:
+                    del self.path[n:]
+                # else: what the body established on its way through (an `if c: raise` that did not raise) stays known — the
+                # items are concrete, so these are facts about this run, not about a generic trip
                 fr.loop_stack.pop()
                 res = r
                 for cond, e2 in ls["continues"]:
@@ -1901,6 +1931,10 @@ class Interp:
     # ------------------------------------------------------------------ attribute / subscript / call
     def attribute(self, base: Val, attr: str, node, env) -> Val:
         if isinstance(base, Alt):
+            conds = getattr(base, "conds", None)
+            if conds and len(conds) == len(base.vals) == 2:
+                a_, b_ = (self.attribute(x, attr, node, env) for x in base.vals)
+                return self.join_cond(conds[0], a_, b_)
             return Alt([self.attribute(x, attr, node, env) for x in base.vals])
         if isinstance(base, ModV):
             return self.global_value(self.p.canonical(f"{base.name}.{attr}"), node)
